@@ -103,6 +103,12 @@ P == CASE Profile = "c04q" ->
              maxmain |-> 4, nmains |-> 1,
              idirs |-> {<<Iu("inc"), Iu("ext")>>, <<Iu("ext"), Iu("inc")>>},
              forced |-> {<<>>}, nents |-> 1, plats |-> <<"p1">>]
+      [] Profile = "c18s" ->
+            \* every scenario: a header whose body is ONE computed include (`#include HDR`), included once or twice by a
+            \* translation unit that redefines HDR in between - to a header that exists or to a name that exists nowhere
+            [slots |-> <<<<"inc", "h.h">>, <<"inc", "g.h">>>>,
+             bodies |-> {"incm", "def"}, stmts |-> {"hg", "hn"}, maxmain |-> 2, nmains |-> 1,
+             idirs |-> {<<Iu("inc")>>}, forced |-> {<<>>}, nents |-> 1, plats |-> <<"p1">>]
       [] Profile = "c18" ->
             \* (root/h.h: a header directly in the analysis root, which is on no search path of its own)
             [slots |-> <<<<"src", "h.h">>, <<"inc", "h.h">>, <<"inc", "g.h">>, <<"ext", "g.h">>, <<"root", "h.h">>>>,
@@ -169,6 +175,7 @@ Body(b, d, n) ==
     [] b = "gincq"  -> <<IfNdef(G(n)), Def(G(n), ""), Inc("q", Other(n)), C, Endif>>
     [] b = "miss"   -> <<C, Inc("q", "nope.h"), Inc("a", "nope.h"), C>>
     [] b = "unk"    -> <<[k |-> "unknown"], C>>
+    [] b = "incm"   -> <<[k |-> "includem", m |-> "HDR"], C>>
     [] b = "indX"   -> <<IfNdef("Y"), Def("Y", "m:X"), Endif, If([t |-> "val", m |-> "Y"]), C, Else, C, Endif>>
 
 \* ---- main-file statements ----------------------------------------------------------------
@@ -193,6 +200,8 @@ Stmt(s) ==
     [] s = "unk" -> <<[k |-> "unknown"], C>>
     \* a condition that names Y, whose value is the identifier X: the outcome depends on X only indirectly
     [] s = "indX" -> <<Def("Y", "m:X"), If([t |-> "val", m |-> "Y"]), C, Else, C, Endif, [k |-> "undef", m |-> "Y"]>>
+    [] s = "hg" -> <<Def("HDR", "q:g.h"), Inc("q", "h.h"), [k |-> "undef", m |-> "HDR"], C>>
+    [] s = "hn" -> <<Def("HDR", "q:nope.h"), Inc("q", "h.h"), [k |-> "undef", m |-> "HDR"], C>>
     [] s = "inch" -> <<IfDef("HDR"), [k |-> "includem", m |-> "HDR"], Endif, C>>
     [] s = "undefM" -> <<[k |-> "undef", m |-> "M_inc"], [k |-> "undef", m |-> "M_src"], C>>
     \* the include guards are ordinary macros: once undefined, a guarded header contributes its body again
@@ -232,6 +241,7 @@ AddHeader == /\ stage = "hdr" /\ si <= Len(Slots)
              /\ \E b \in Bodies :
                   LET d == Slots[si][1] n == Slots[si][2] IN
                   /\ (HasDirPart(n) => b \notin Including)
+                  /\ (Profile = "c18s" => (b = "incm" <=> n = "h.h"))
                   /\ files' = files @@ (Fid(d, n) :> [dir |-> d, name |-> n, items |-> Body(b, d, n)])
              /\ si' = si + 1 /\ UNCHANGED <<stage, cur, ns, ents>>
 HdrDone == /\ stage = "hdr" /\ si > Len(Slots)
@@ -314,7 +324,7 @@ WarnExpect ==
   IN [user |-> user, system |-> sys, unknown |-> unknown, ghost |-> ghosts, compiler |-> ccs, flag |-> flags,
       total |-> user + sys + unknown + ghosts + ccs + flags,
       silent |-> (\A i \in 1..Len(ents) : R[i].warns = <<>>) /\ unknown = 0 /\ ghosts = 0 /\ ccs = 0 /\ flags = 0]
-WithWarns == Profile = "c18"
+WithWarns == Profile \in {"c18", "c18s"}
 
 Emit == /\ stage = "tu" /\ Len(ents) = NEntries
         /\ stage' = "done" /\ UNCHANGED <<si, files, cur, ns, ents>>
